@@ -59,13 +59,51 @@ def model_B(doc):
     b["enumerations"].append({"name": "VerifStaleEnum", "type": {"kind": "base", "name": "string"}, "values": [{"name": "One", "value": "one"}, {"name": "Two", "value": "two"}]})
     b["requests"].append({"method": "verif/staleRequest", "typeName": "VerifStaleRequest", "messageDirection": "clientToServer", "params": {"kind": "reference", "name": "VerifStaleStruct"}, "result": {"kind": "or", "items": [{"kind": "reference", "name": "VerifStaleStruct"}, {"kind": "base", "name": "null"}]}})
     b["notifications"].append({"method": "verif/staleNotification", "typeName": "VerifStaleNotification", "messageDirection": "both", "params": {"kind": "reference", "name": "VerifStaleStruct"}})
+    # ... and it differs in existing declarations too (what a per-process cache keyed by name would
+    # capture): enumeration openness, first members, a property's optionality
+    for e in b["enumerations"]:
+        if e["name"] == "FoldingRangeKind":
+            e.pop("supportsCustomValues", None)
+            e["values"] = e["values"][::-1]
+        if e["name"] in ("DiagnosticSeverity", "MarkupKind"):
+            e["supportsCustomValues"] = True
+            e["values"] = e["values"][::-1]
+    for st in b["structures"]:
+        if st["name"] == "FoldingRange":
+            for p_ in st["properties"]:
+                if p_["name"] == "startCharacter":
+                    p_.pop("optional", None)
     return b
+
+
+def model_C(doc):
+    """The committed model plus anonymous literal types whose derived names collide (same single
+    required property, positions without a name context) - the LSP metamodel uses such literals;
+    the committed 3.17/3.18 model currently has only empty ones."""
+    c = copy.deepcopy(doc)
+    lit = lambda extra: {"kind": "literal", "value": {"properties": [{"name": "text", "type": {"kind": "base", "name": "string"}}] + extra}}
+    opt = lambda n, t: {"name": n, "type": {"kind": "base", "name": t}, "optional": True}
+    c["structures"].append(
+        {
+            "name": "VerifLiteralCarrier",
+            "properties": [
+                {"name": "primaryChoice", "type": {"kind": "or", "items": [lit([opt("alpha", "string")]), {"kind": "base", "name": "null"}]}},
+                {"name": "secondaryItems", "type": {"kind": "array", "element": lit([opt("beta", "uinteger")])}},
+                {"name": "tertiaryChoice", "type": {"kind": "or", "items": [lit([opt("gamma", "boolean")]), {"kind": "base", "name": "null"}]}, "optional": True},
+                {"name": "plainDetail", "type": lit([])},
+            ],
+        }
+    )
+    return c
+
+
+TRIM_METHODS = ("textDocument/foldingRange", "textDocument/hover", "shutdown", "textDocument/publishDiagnostics", "exit")
 
 
 def trimmed(doc, keep_req=3, keep_not=2):
     t = copy.deepcopy(doc)
-    t["requests"] = t["requests"][:keep_req]
-    t["notifications"] = t["notifications"][:keep_not]
+    t["requests"] = [r for r in t["requests"] if r["method"] in TRIM_METHODS or r["method"].startswith("verif/")]
+    t["notifications"] = [r for r in t["notifications"] if r["method"] in TRIM_METHODS or r["method"].startswith("verif/")]
     return t
 
 
@@ -92,7 +130,13 @@ def main(tier):
         pTrimA = os.path.join(root, "trimA.json")
         json.dump(trimmed(doc), open(pTrimA, "w"))
         pTrimB = os.path.join(root, "trimB.json")
-        json.dump(trimmed(model_B(doc), 3, 2) | {"requests": trimmed(doc)["requests"] + model_B(doc)["requests"][-1:], "notifications": trimmed(doc)["notifications"] + model_B(doc)["notifications"][-1:]}, open(pTrimB, "w"))
+        json.dump(trimmed(model_B(doc)), open(pTrimB, "w"))
+        pC = os.path.join(root, "modelC.json")
+        json.dump(model_C(doc), open(pC, "w"))
+        pTrimC = os.path.join(root, "trimC.json")
+        tc = trimmed(model_C(doc))
+        tc["requests"].append({"method": "verif/literals", "typeName": "VerifLiteralsRequest", "messageDirection": "clientToServer", "params": {"kind": "reference", "name": "VerifLiteralCarrier"}, "result": {"kind": "base", "name": "null"}})
+        json.dump(tc, open(pTrimC, "w"))
         seeds = ["0", "1"] if tier == "quick" else ["0", "1", "4242", "random"]
         import threading
         from concurrent.futures import ThreadPoolExecutor
@@ -183,26 +227,44 @@ def main(tier):
                 dE = os.path.join(root, "out-rust-bare")
                 os.makedirs(os.path.join(dE, "lsprotocol"))
                 compare("bare", go("rust-bare", outdir=dE), "package directory pre-exists without src/")
-            if plugin in ("python", "rust", "dotnet") or tier != "quick":
+            if True:
                 # two runs inside one process
+                # inside one process: a different model B first, then model A twice
                 script = (
                     "import sys, generator.__main__ as g\n"
                     "a=sys.argv[1:]\n"
-                    "m=[] if a[3]=='-' else ['--model', a[3]]\n"
+                    "m=[] if a[4]=='-' else ['--model', a[4]]\n"
+                    "g.main(['--plugin', a[0], '--output-dir', a[2], '--test-dir', a[2]+'-t', '--model', a[5]])\n"
                     "g.main(['--plugin', a[0], '--output-dir', a[1], '--test-dir', a[1]+'-t']+m)\n"
-                    "g.main(['--plugin', a[0], '--output-dir', a[2], '--test-dir', a[2]+'-t']+m)\n"
+                    "g.main(['--plugin', a[0], '--output-dir', a[3], '--test-dir', a[3]+'-t']+m)\n"
                 )
-                d1, d2 = os.path.join(root, "out-%s-p1" % plugin), os.path.join(root, "out-%s-p2" % plugin)
+                d1, dB2, d2 = os.path.join(root, "out-%s-p1" % plugin), os.path.join(root, "out-%s-pB" % plugin), os.path.join(root, "out-%s-p2" % plugin)
                 env = dict(os.environ, PYTHONPATH=common.REPO, PYTHONHASHSEED="7", PYTHONDONTWRITEBYTECODE="1")
-                p = subprocess.run([common.PY, "-c", script, plugin, d1, d2, (mA[0] if mA else "-")], cwd=common.REPO, env=env, capture_output=True, text=True, timeout=900)
-                runs += 2
-                histories.append("%s:two runs in one process" % plugin)
+                p = subprocess.run([common.PY, "-c", script, plugin, d1, dB2, d2, (mA[0] if mA else "-"), mB[0]], cwd=common.REPO, env=env, capture_output=True, text=True, timeout=900)
+                with lock:
+                    runs += 3
+                histories.append("%s:B, A, A inside one process" % plugin)
                 if p.returncode != 0:
-                    rep.fail("second run in one process fails|%s" % plugin, {"tail": (p.stdout + p.stderr)[-600:]})
+                    rep.fail("later run in one process fails|%s" % plugin, {"tail": (p.stdout + p.stderr)[-600:]})
                 else:
-                    for d, w in ((d1, "first"), (d2, "second")):
+                    for d, w in ((d1, "after a different model"), (d2, "third")):
                         if owned(plugin, d) != ref_o:
                             rep.fail("output differs from the fresh seed-0 run|%s|%s run inside one process" % (plugin, w), {})
+            # a model with anonymous literal types whose derived names collide: two processes agree, no id leaks
+            mC = [pTrimC] if plugin == "testdata" else [pC]
+            c1 = go("%s-C1" % plugin, models=mC, seed="0")
+            c2 = go("%s-C2" % plugin, models=mC, seed="1")
+            histories.append("%s:model with colliding anonymous literals x 2 processes" % plugin)
+            if c1.rc != 0 or c2.rc != 0:
+                if plugin != "dotnet":  # .NET literal naming limits are C06's listed finding
+                    rep.fail("plugin fails on the model with anonymous literals|%s" % plugin, {"tail": (c1.out if c1.rc else c2.out)[-500:]})
+            else:
+                o1, o2 = owned(plugin, c1.outdir), owned(plugin, c2.outdir)
+                if o1 != o2:
+                    rep.fail("output differs between two processes on the same model|%s|anonymous literals" % plugin, {"different": sorted(k for k in o1 if o1.get(k) != o2.get(k))[:5]})
+                th = taint(plugin, c1.outdir, c1.log.get("uuid4_values", []))
+                if th:
+                    rep.fail("random identifier reaches the output|%s" % plugin, {"hits": th})
             for d in os.listdir(root):
                 if d.startswith("out-%s" % plugin) and plugin in ("dotnet", "testdata"):
                     shutil.rmtree(os.path.join(root, d), ignore_errors=True)
